@@ -46,11 +46,18 @@ theorem pen_delta_correct_render (rgb su legacy : Bool) (p n : Style) (hn : n.ul
     apply (shownCaps rgb su p) (renderDelta rgb su legacy p n) = shownCaps rgb su n :=
   renderDelta_correct rgb su legacy p n hn
 
+/-- The bounds checks the two `[][]int` consumers are written with (extracted: `Gen.SgrCases.parseSGRExt` / `emuSgrExt`, which
+    `Model.Sgr.extColour` reads) are enough: the legacy form is read only when ≥ 3 parameters remain, its RGB variant only when ≥ 5
+    remain.  (Round 4: `sgr_total` now rests on the extracted numbers — with `len(params[i:]) < 4` in the source the model would
+    panic on `38;2;1;2` and this would not be provable.) -/
+theorem cfgs_nums_ok : NumsOk parseCfg ∧ NumsOk emuCfg :=
+  ⟨numsOk_of_B _ (by decide), numsOk_of_B _ (by decide)⟩
+
 /-- **sgr_total.** No SGR consumer panics on any list of non-empty parameter lists (what the ansi
     parser and `strings.Split` produce), including truncated 38/48/58 forms. -/
 theorem sgr_total (s : Style) (ps : Seq) (h : ∀ p ∈ ps, p ≠ []) :
     (∃ s', parseSGR s ps = .ok s') ∧ (∃ s', emuSgr s ps = .ok s') := 
-  ⟨intSgr_ok parseCfg s ps h, intSgr_ok emuCfg s ps h⟩
+  ⟨intSgr_ok parseCfg cfgs_nums_ok.1 s ps h, intSgr_ok emuCfg cfgs_nums_ok.2 s ps h⟩
 
 /-- **sgr_total (NewStyledString).** On every list of non-empty lists of arbitrary sub-parameter texts. -/
 theorem sgr_total_ss (dflt s : Style) (ps : List (List SubTok)) (h : ∀ p ∈ ps, p ≠ []) :
